@@ -169,6 +169,83 @@ def run_bolfi(case):
     return CaseResult(['chains=%d' % min(C, 3), 'warmup>0' if warm else 'warmup=0'], True if (C >= 2 and warm > 0) else None)
 
 
+# ------------------------------------------------------------------ SMC / BSL result objects
+
+def strat_derived(tier):
+    return st.fixed_dictionaries({
+        'names': st.lists(st.sampled_from(PN), min_size=1, max_size=3, unique=True),
+        'n': st.integers(1, 20), 'npop': st.integers(1, 4), 'seed': st.integers(0, 10 ** 6),
+        'burn': st.integers(0, 10 ** 6), 'fmt': st.sampled_from(['json', 'pkl', 'csv']),
+    })
+
+
+def run_derived(case):
+    from elfi.methods.results import BslSample, Sample, SmcSample
+    names, n = case['names'], case['n']
+    rs = np.random.RandomState(case['seed'])
+    ctx = 'names=%r n=%d populations=%d format=%s' % (names, n, case['npop'], case['fmt'])
+    # BslSample: the burn-in prefix is removed from every parameter, nothing else
+    N = n + 5
+    burn = case['burn'] % N
+    all_s = {nm: rs.randn(N) + i for i, nm in enumerate(names)}
+    with must_not_raise(P, 'BslSample; ' + ctx):
+        b = BslSample(method_name='BSL', samples_all={k: v.copy() for k, v in all_s.items()}, parameter_names=list(names), burn_in=burn, acc_rate=0.5)
+    for j, nm in enumerate(names):
+        if not np.array_equal(np.asarray(b.samples[nm]), all_s[nm][burn:]) or not np.array_equal(np.asarray(b.samples_array)[:, j], all_s[nm][burn:]):
+            raise Violation('C16:bsl-burn-in', 'BslSample parameter %s is not samples_all[%d:]; %s' % (nm, burn, ctx))
+    # SmcSample: populations survive saving
+    pops = []
+    for k in range(case['npop']):
+        outs = {nm: rs.randn(n) * (k + 1) for nm in names}
+        outs['d'] = np.sort(rs.rand(n))
+        pops.append(Sample(method_name='pop', outputs=outs, parameter_names=list(names), discrepancy_name='d', weights=rs.rand(n) + 0.1,
+                           n_sim=10 * (k + 1), threshold=float(outs['d'][-1])))
+    last = pops[-1]
+    with must_not_raise(P, 'SmcSample; ' + ctx):
+        s = SmcSample(method_name='SMC', outputs={k: v.copy() for k, v in last.outputs.items()}, parameter_names=list(names), populations=list(pops),
+                      discrepancy_name='d', weights=last.weights.copy(), n_sim=100, threshold=last.threshold)
+    before = {nm: np.asarray(s.samples[nm]).copy() for nm in names}
+    tmp = tempfile.mkdtemp(prefix='c16d-', dir=os.environ.get('VERIF_TMP'))
+    try:
+        fn = os.path.join(tmp, 's.' + case['fmt'])
+        with must_not_raise(P, 'SmcSample.save(%s); %s' % (case['fmt'], ctx)):
+            s.save(fn)
+        if case['fmt'] == 'json':
+            data = json.load(open(fn))
+            got_pops = data.get('populations', {})
+            if len(got_pops) != case['npop']:
+                raise Violation('C16:smc-json-populations', 'json holds %d populations, the sample has %d; %s' % (len(got_pops), case['npop'], ctx))
+            for key, pop in zip(sorted(got_pops), pops):
+                for nm in names:
+                    a = np.array(got_pops[key]['samples'][nm], dtype=float)
+                    if not np.array_equal(a, pop.samples[nm]):
+                        raise Violation('C16:smc-json-populations', 'population %s parameter %s read back as %r, stored %r; %s' % (key, nm, a.tolist(), pop.samples[nm].tolist(), ctx))
+            top = {nm: np.array(data['samples'][nm], dtype=float) for nm in names}
+        elif case['fmt'] == 'pkl':
+            back = pickle.load(open(fn, 'rb'))
+            if len(back.populations) != case['npop']:
+                raise Violation('C16:smc-pickle-populations', 'pickle holds %d populations; %s' % (len(back.populations), ctx))
+            for bp, pop in zip(back.populations, pops):
+                for nm in names:
+                    if not np.array_equal(np.asarray(bp.samples[nm]), pop.samples[nm]) or not np.array_equal(np.asarray(bp.weights), pop.weights):
+                        raise Violation('C16:smc-pickle-populations', 'a population changed through pickle; %s' % ctx)
+            top = {nm: np.asarray(back.samples[nm]) for nm in names}
+        else:
+            rows = list(csv.reader(open(fn, newline='')))
+            top = {nm: np.array([float(r[i]) for r in rows[1:]], dtype=float) for i, nm in enumerate(rows[0])}
+        for nm in names:
+            if nm not in top or not np.array_equal(top[nm], before[nm]):
+                raise Violation('C16:save-roundtrip', 'SmcSample saved as %s: parameter %s read back differently; %s' % (case['fmt'], nm, ctx))
+            if not isinstance(s.samples[nm], np.ndarray) or not np.array_equal(s.samples[nm], before[nm]):
+                raise Violation('C16:save-changes-object', 'SmcSample.save(%s) changed the in-memory samples; %s' % (case['fmt'], ctx))
+            for pop in pops:
+                if not isinstance(pop.samples[nm], np.ndarray):
+                    raise Violation('C16:save-changes-object', 'SmcSample.save(%s) turned the samples of a population into %s; %s' % (case['fmt'], type(pop.samples[nm]).__name__, ctx))
+    finally:
+        shutil.rmtree(tmp, ignore_errors=True)
+    return CaseResult(['format=' + case['fmt'], 'populations=%d' % min(case['npop'], 3)], True if (case['npop'] >= 2 and len(names) >= 2) else None)
+
+
 # ------------------------------------------------------------------ diagnostics
 
 def strat_diag(tier):
@@ -266,11 +343,12 @@ CHECK = Check(
     rule=('sample: 1-4 parameter names in arbitrary (non-sorted) order, an optional extra output, 1-60 samples, weights none/positive, '
           'finite doubles incl. -0.0, 1e-300, 5e-324, |x| up to 1e150, saved to any sequence of pickle/json/csv and read back with the '
           'standard library; bolfi: chains (1-5 x 2-40 x 1-4) whose entries encode (chain, iteration, parameter) with every warm-up '
-          'length; diagnostics: 1-6 AR(1) chains of length 4-120 (thorough 200) vs naive reference formulas, affine maps a x + b with '
+          'length; smc-bsl-samples: BslSample burn-in removal and SmcSample with 1-4 populations saved as json/pickle/csv; diagnostics: 1-6 AR(1) chains of length 4-120 (thorough 200) vs naive reference formulas, affine maps a x + b with '
           'a = +-2^k (k in -60..60) or generic over 1e-9..1e9, chain permutations. Non-trivial: >= 2 parameters in non-alphabetical order; >= 2 chains with warm-up > 0; '
           '>= 2 chains (diagnostics).'),
     parts=[Part('sample', run_sample, strategy=strat_sample, examples={'quick': 500, 'thorough': 32000}),
            Part('bolfi-sample', run_bolfi, strategy=strat_bolfi, examples={'quick': 300, 'thorough': 16000}),
+           Part('smc-bsl-samples', run_derived, strategy=strat_derived, examples={'quick': 300, 'thorough': 16000}),
            Part('diagnostics', run_diag, strategy=strat_diag, examples={'quick': 300, 'thorough': 16000})],
     assumptions=['multivariate parameter nodes are not generated (unsupported for CSV by design)',
                  'cases whose ESS truncation decision has |rho| < 1e-9 are borderline and skipped for the ESS comparisons'],
